@@ -32,6 +32,10 @@ type likeCase struct {
 	Degenerate string `json:"degenerate,omitempty"`
 	Upper      bool   `json:"upper,omitempty"`
 	BufLen     int    `json:"buf_len,omitempty"`
+	// Sub: the filter runs on a frame derived from the column's frame, with far fewer rows than the
+	// column has (distinct) values: "tail" Slice(n-10,n), "mid" Slice(n/2,n/2+8), "sorted-head"
+	// Sort(id desc).Slice(0,9), "filtered" rows with id%13 == 5
+	Sub string `json:"sub,omitempty"`
 }
 
 var c18cells []string
@@ -187,6 +191,30 @@ func runLikeCase(c likeCase) *core.Failure {
 	if qf.Err != nil {
 		return core.Failf("could not build column: %v", qf.Err)
 	}
+	if n := qf.Len(); c.Sub != "" {
+		lim := func(x int) int {
+			if x > n {
+				return n
+			}
+			if x < 0 {
+				return 0
+			}
+			return x
+		}
+		switch c.Sub {
+		case "tail":
+			qf = qf.Slice(lim(n-10), n)
+		case "mid":
+			qf = qf.Slice(lim(n/2), lim(n/2+8))
+		case "sorted-head":
+			qf = qf.Sort(qframe.Order{Column: "id", Reverse: true}).Slice(0, lim(9))
+		default:
+			qf = qf.Filter(qframe.Filter{Column: "id", Comparator: func(x int) bool { return x%13 == 5 }})
+		}
+		if qf.Err != nil {
+			return core.Failf("could not derive the %s frame: %v", c.Sub, qf.Err)
+		}
+	}
 	in := model.Observe(qf)
 	res := qf.Filter(qframe.Filter{Column: "s", Comparator: c.Cmp, Arg: c.Pattern})
 	col, _, _ := in.Col("s")
@@ -210,7 +238,7 @@ func runLikeCase(c likeCase) *core.Failure {
 		// an invalid pattern is an error even when no cell is looked at
 		_, perr = model.LikeMatch(c.Pattern, "", c.Cmp == "like")
 	}
-	what := fmt.Sprintf("Filter(s %s %q) on %s column (order %s chunk %d seq %q)", c.Cmp, c.Pattern, map[bool]string{false: "string", true: "enum"}[c.Enum], c.Order, c.Chunk, c.Seq)
+	what := fmt.Sprintf("Filter(s %s %q) on %s column (order %s chunk %d seq %q sub %q)", c.Cmp, c.Pattern, map[bool]string{false: "string", true: "enum"}[c.Enum], c.Order, c.Chunk, c.Seq, c.Sub)
 	if perr != nil {
 		if res.Err == nil {
 			return core.Failf("%s: the pattern is not a valid regular expression (%v) but no error was reported", what, perr)
@@ -326,6 +354,19 @@ func c18Run(ctx *core.Ctx) {
 				if ctx.Mine() {
 					exec(likeCase{Pattern: p, Cmp: cmp, Order: order}, "string/"+cmp)
 				}
+				if order == "asc" {
+					// the same filter on frames derived from the column's frame (few rows, many values)
+					for _, sub := range []string{"tail", "mid", "sorted-head", "filtered"} {
+						if ctx.Mine() {
+							exec(likeCase{Pattern: p, Cmp: cmp, Order: order, Sub: sub}, "string-sub/"+cmp)
+						}
+						for ch := range env.enum[order] {
+							if ctx.Mine() {
+								exec(likeCase{Pattern: p, Cmp: cmp, Order: order, Enum: true, Chunk: ch, Sub: sub}, "enum-sub/"+cmp)
+							}
+						}
+					}
+				}
 				if order == "asc" || !ctx.Quick() {
 					for ch := range env.enum[order] {
 						if ctx.Mine() {
@@ -394,7 +435,7 @@ func init() {
 		Setup: func() { c18Env() },
 		Level: "model_checking",
 		Rule: "case = (pattern, comparator, column kind, cell order). Cells: ALL strings of length <= 3 over a 13-code-point alphabet (a, A, b, é, É, ß, dotless i U+0131 (upper one byte shorter), long s U+017F, U+0250 (upper one byte longer), C1 control U+0080, Kelvin sign U+212A, '.', '(') plus a^k+c and c+b^k for k = 4..14 (lengths around the matcher's 10-byte buffer), and one null; " +
-			"patterns: ALL strings of length <= 3 over the alphabet plus '%' (incl. empty, %, %%, regex metacharacters, invalid regex) plus long patterns; comparators like and ilike; as string column (cells in ascending, descending and interleaved length order, because the case-insensitive matcher reuses one buffer across cells) and as enum column in chunks of 254 values, each followed in the same process by a sibling enum column with the same cardinality, first and last value but the middle values rotated; valid and invalid patterns on degenerate columns (no rows, all null, rows already selected by an earlier Or sub-clause, filtered down to nulls); a 14-cell core in all sequences of 3 through ilike and through the zero-alloc ToUpper directly with 4 buffer sizes. " +
+			"patterns: ALL strings of length <= 3 over the alphabet plus '%' (incl. empty, %, %%, regex metacharacters, invalid regex) plus long patterns; comparators like and ilike; as string column (cells in ascending, descending and interleaved length order, because the case-insensitive matcher reuses one buffer across cells) and as enum column in chunks of 254 values, each followed in the same process by a sibling enum column with the same cardinality, first and last value but the middle values rotated, and each also on four frames derived from the column's frame (tail slice, middle slice, sorted head, filtered: 8-20 rows of a column with 254 values); valid and invalid patterns on degenerate columns (no rows, all null, rows already selected by an earlier Or sub-clause, filtered down to nulls); a 14-cell core in all sequences of 3 through ilike and through the zero-alloc ToUpper directly with 4 buffer sizes. " +
 			"Oracle: the statement's rules (literal match after trimming one leading/trailing %, strings.ToUpper for ilike, Go regexp anchored per missing % with (?i) for ilike when the pattern has metacharacters, compile error => Err, nulls never match). Every Filter call evaluates ~2700 cells; all cases non-trivial, distinct by content.",
 		Assumptions: []string{
 			"strings.ToUpper and Go's regexp are the reference for Unicode upper-casing and regular expressions",
